@@ -45,13 +45,15 @@ def register(jobs):
 
 # jobs whose functions call functions translated by another job
 DEPS = {'CoreGS': ['CoreBand']}
+# jobs translated with folded augmented stores (upd1f/upd3f)
+FOLD_AUG = {'CoreGS'}
 
 
 def generate(job, repo=REPO, out_dir=GEN_DIR):
     """(Re)generate Gen/<job>.v.  Returns (path, changed).  Raises
     Untranslatable if the source left the accepted subset."""
     src, fns = JOBS[job]
-    tr = Translator(os.path.join(repo, src), registry={})
+    tr = Translator(os.path.join(repo, src), registry={}, fold_aug=(job in FOLD_AUG))
     imports = ''
     for dep in DEPS.get(job, []):
         dsrc, dfns = JOBS[dep]
